@@ -5,6 +5,7 @@ Line:  CALL \t kind[:style] \t provider \t scope \t item...
   item  P|name|S|spec|value          single hint
         P|name|T|spec;spec;..|value  tuple hint   (TO: Optional[tuple[...]])
         R|S/T/-|specs|value          return hint (or '-') and what the body returns ('!' = raises)
+        PD|..  the same with the value as DEFAULT that the caller leaves out;  PE|..  default = value, passed explicitly
         AL                           identical annotation specs share one annotation object (a type alias)
   value N | X | T,lib:dtype,d1.d2 | U:v;v;v (a tuple; L: a list, S: an instance of a tuple subclass)
 """
@@ -136,7 +137,9 @@ class Built:
             h = f"Annotated[{bsrc}, {nm}]"
             h = {"0": h, "1": h + " | None", "2": h + " | int", "3": h + " | int | None", "4": f"typing.Optional[{h}]",
                  "5": "None | " + h, "6": f"Annotated[int, {nm}]", "7": f"typing.Optional[typing.Optional[{h}]]",
-                 "8": f"typing.Union[int, {h}]", "9": f"typing.Union[None, float, {h}]"}[opt]
+                 "8": f"typing.Union[int, {h}]", "9": f"typing.Union[None, float, {h}]",
+                 # further metadata after the dltype annotation (a doc string, a pydantic Field, ...): still the same hint
+                 "A": f"Annotated[{bsrc}, {nm}, 'unit: px']"}[opt]
             parts.append(h)
         if mode == "TO":
             return "typing.Optional[tuple[" + ", ".join(parts) + "]]"
@@ -166,6 +169,9 @@ def op_call(kindstyle: str, prov: str, scope: str, *items: str) -> str:
             elif f[0] == "PD":
                 # a hinted parameter with a default value that the caller omits
                 params.append((f[1], b.hint_src(f[2], f[3], f[4]), parse_value_u(f[4]), "omit"))
+            elif f[0] == "PE":
+                # a hinted parameter whose default value is its value, passed EXPLICITLY all the same
+                params.append((f[1], b.hint_src(f[2], f[3], f[4]), parse_value_u(f[4]), "explicit"))
             elif f[0] == "VA":
                 varargs = (f[1], [impl.parse_value(v) for v in impl.split_semi(f[2])])
             elif f[0] == "VK":
@@ -199,7 +205,8 @@ def _provider_src(prov: str, sc: dict, ns: dict) -> str:
     if prov == "-":
         return ""
     if prov in ("self", "selfbad"):
-        return '"self"'
+        # (built at run time: equal to "self" but not the interned literal — as a value read from a configuration file is)
+        return '"".join(("se", "lf"))'
     if prov == "bad":
         ns["PROV"] = object()
         return "PROV"
@@ -223,11 +230,12 @@ def _late_names(src: str) -> str:
 
 def _call_function(kind, style, prov, sc, params, ret_src, body_raises, ns, defaults=(), varargs=None, varkw=None) -> str:
     names = [p[0] for p in params]
-    omitted = {p[0] for p in params if len(p) > 3}
+    omitted = {p[0] for p in params if len(p) > 3 and p[3] == "omit"}
+    defaulted = {p[0] for p in params if len(p) > 3}
     parts = []
     for p in params:
         n, h = p[0], p[1]
-        if n in omitted:
+        if n in defaulted:
             ns[f"DEF_{n}"] = p[2]
             parts.append(f"{n}: {h} = DEF_{n}")
         else:
@@ -272,7 +280,7 @@ def _call_function(kind, style, prov, sc, params, ret_src, body_raises, ns, defa
             src += "    def get_dltype_scope(self):\n        return dict(SC)\n"
         src += f"    @dltype.dltyped({psrc})\n    def f(self{', ' if sig else ''}{sig}){rets}:\n"
         src += "".join("    " + l + "\n" for l in body.splitlines())
-        src += "F = K().f\nRAW = K.f\n"
+        src += "INST = K()\nF = INST.f\nRAW = K.f\n"
     else:
         src = f"@dltype.dltyped({psrc})\ndef f({sig}){rets}:\n{body}F = f\nRAW = f\n"
     ns["SC"] = sc
@@ -287,10 +295,16 @@ def _call_function(kind, style, prov, sc, params, ret_src, body_raises, ns, defa
             ns["LATE_" + k] = ns[k]
     F = ns["F"]
     identity = not hasattr(ns["RAW"], "__wrapped__")
-    passed = [(p[0], p[2]) for p in params if p[0] not in omitted]
+    # parameters that have a default and are passed all the same go by keyword (they may follow an omitted one)
+    explicit = {p[0]: p[2] for p in params if len(p) > 3 and p[3] == "explicit"}
+    passed = [(p[0], p[2]) for p in params if p[0] not in defaulted]
     pn, pv = [n for n, _ in passed], [v for _, v in passed]
     if varargs:
         args, kwargs = tuple(pv) + tuple(varargs[1]), {}
+    elif style == "kwself" and kind == "method":
+        # the method called through the class, every argument — the receiver included — by keyword
+        F = ns["K"].f
+        args, kwargs = (), {"self": ns["INST"], **dict(zip(pn, pv))}
     elif style in ("kwonly", "posonly") and pn:
         args, kwargs = tuple(pv[:kpos]), dict(zip(pn[kpos:], pv[kpos:]))
     elif style == "kw":
@@ -300,6 +314,7 @@ def _call_function(kind, style, prov, sc, params, ret_src, body_raises, ns, defa
         args, kwargs = tuple(pv[:k]), dict(zip(pn[k:], pv[k:]))
     else:
         args, kwargs = tuple(pv), {}
+    kwargs = {**kwargs, **explicit}
     if varkw:
         kwargs = {**kwargs, **varkw[1]}
     vals = [p[2] for p in params]
@@ -330,8 +345,17 @@ def _call_function(kind, style, prov, sc, params, ret_src, body_raises, ns, defa
 def _construct(kind, style, params, ns) -> str:
     names = [p[0] for p in params]
     vals = [p[2] for p in params]
+    omitted = {p[0] for p in params if len(p) > 3 and p[3] == "omit"}
+    defaulted = {p[0] for p in params if len(p) > 3}
     params = [p[:3] for p in params]
-    fields = "".join(f"    {n}: {h}\n" for n, h, _ in params) or "    pass\n"
+    for n, _h, v in params:
+        if n in defaulted:
+            ns[f"DEF_{n}"] = v
+    if kind == "dc":
+        # (a mutable default needs a factory in a dataclass)
+        fields = "".join(f"    {n}: {h}" + (f" = dataclasses.field(default_factory=lambda: DEF_{n})" if n in defaulted else "") + "\n" for n, h, _ in params) or "    pass\n"
+    else:
+        fields = "".join(f"    {n}: {h}" + (f" = DEF_{n}" if n in defaulted else "") + "\n" for n, h, _ in params) or "    pass\n"
     if kind == "nt":
         src = f"@dltype.dltyped_namedtuple()\nclass C(typing.NamedTuple):\n{fields}"
     elif kind == "dc":
@@ -348,13 +372,14 @@ def _construct(kind, style, params, ns) -> str:
     except Exception as e:  # noqa: BLE001
         return "decor pyexc " + type(e).__name__
     C = ns["C"]
-    if kind == "pyd" or style == "kw":
-        order = list(range(len(names)))
+    passed = [i for i in range(len(names)) if names[i] not in omitted]
+    if kind == "pyd" or style == "kw" or (omitted and style != "kwrev"):
+        order = list(passed)
         if style == "kwrev":
             order.reverse()
         args, kwargs = (), {names[i]: vals[i] for i in order}
     elif style == "kwrev":
-        args, kwargs = (), {names[i]: vals[i] for i in reversed(range(len(names)))}
+        args, kwargs = (), {names[i]: vals[i] for i in reversed(passed)}
     else:
         args, kwargs = tuple(vals), {}
     try:
